@@ -85,9 +85,11 @@ def evIds : Ev → List Id
 theorem connErr_spec (id : Id) (s : St) (to : Option Nat) (k : WErr) (_h : s.retry = none) :
     owed id (connErr s to k).1 + ocnt id (connErr s to k).2 = cnt id s.tasks + cnt id s.chan ∧
     WF (connErr s to k).1 := by
-  by_cases hge : to.getD 0 ≥ MAX_BACKEND_RETRY
-  · simp [connErr, hge, owed, retryTasks, WF]; omega
-  · simp [connErr, hge, owed, retryTasks, WF]
+  by_cases he : s.tasks = []
+  · simp [connErr, he, owed, retryTasks, WF]
+  · by_cases hge : to.getD 0 ≥ MAX_BACKEND_RETRY
+    · simp [connErr, he, hge, owed, retryTasks, WF]; omega
+    · simp [connErr, he, hge, owed, retryTasks, WF]
 
 theorem drainUp_spec (id : Id) (s : St) (hp : s.phase = .up) (h : s.retry = none) :
     owed id (drainUp s).1 + ocnt id (drainUp s).2 = cnt id s.tasks + cnt id s.chan ∧
@@ -249,11 +251,14 @@ theorem answerAll_isError (ts : List Task) (r : Res) (hr : r.isError = true) :
 
 theorem connErr_isError (s : St) (to : Option Nat) (k : WErr) :
     ∀ p ∈ (connErr s to k).2, p.2.isError = true := by
-  by_cases hge : to.getD 0 ≥ MAX_BACKEND_RETRY
-  · simp only [connErr, hge, if_true]
-    apply answerAll_isError
-    cases k <;> rfl
-  · simp [connErr, hge]
+  by_cases he : s.tasks = []
+  · simp [connErr, he]
+  · by_cases hge : to.getD 0 ≥ MAX_BACKEND_RETRY
+    · have he' : s.tasks.isEmpty = false := by simpa using he
+      simp only [connErr, he', hge, if_true, Bool.false_eq_true, if_false]
+      apply answerAll_isError
+      cases k <;> rfl
+    · simp [connErr, he, hge]
 
 theorem drainUp_isError (s : St) : ∀ p ∈ (drainUp s).2, p.2.isError = true := by
   by_cases hc : s.closed = true
@@ -350,7 +355,7 @@ def Matched (s : St) : Prop :=
 theorem Matched_init : Matched init := by simp [Matched, init]
 
 theorem connErr_phase (s : St) (to : Option Nat) (k : WErr) : (connErr s to k).1.phase = .connecting := by
-  by_cases hge : to.getD 0 ≥ MAX_BACKEND_RETRY <;> simp [connErr, hge]
+  by_cases he : s.tasks = [] <;> by_cases hge : to.getD 0 ≥ MAX_BACKEND_RETRY <;> simp [connErr, he, hge]
 
 theorem Matched_of_not_up {s : St} (h : s.phase ≠ .up) : Matched s := fun hu => absurd hu h
 
